@@ -28,6 +28,7 @@ type ent struct {
 	Look    func(b *mocker.Builder, via, pkg, raw, m, tmpl string) interface{} // the lookup through one API path
 	Cb      func(via string, k int) interface{}                                // typed callback number k
 	StandIn func(via string) interface{}                                       // typed stand-in for As(..)
+	Tmpl    func(tmpl string) interface{}                                      // template instance for Struct / NewMethodMocker (nil: type not visible)
 }
 
 // wireBase is what '@' abbreviates in the operation stream.
@@ -39,8 +40,11 @@ func expect(e *ent) int64 {
 	if e.NP >= 1 {
 		v += w.WantX * 31
 	}
-	if e.NP >= 2 {
+	if e.NP == 2 {
 		v += int64(len(w.WantS))
+	}
+	if e.NP == 3 { // two stack-passed arrays instead of (x, s)
+		v += -w.WantX*31 + w.WantArr[0]*31 + w.WantArr2[3]
 	}
 	return v
 }
@@ -123,6 +127,59 @@ type handle struct {
 	h   interface{}
 	e   *ent
 	via string
+	um  *mocker.UnexportedMethodMocker // directly constructed (outside the builder caches)
+	mm  *mocker.MethodMocker
+}
+
+// directTok handles `UM~pkg~sn~m~eid` and `MM~pkg~T~ptr~m~eid[~tmpl]`: old == nil constructs a fresh mocker object with
+// the exported constructor, otherwise the same object is pointed at another method name with Method(..).
+func directTok(f []string, old *handle) (hd handle, res string) {
+	var eidS, m, tmpl string
+	switch {
+	case len(f) == 5 && f[0] == "UM":
+		m, eidS = f[3], f[4]
+	case (len(f) == 6 || len(f) == 7) && f[0] == "MM":
+		m, eidS, tmpl = f[4], f[5], "z"
+		if len(f) == 7 {
+			tmpl = f[6]
+		}
+	default:
+		return hd, "bad-op"
+	}
+	eid, err := strconv.Atoi(eidS)
+	if err != nil || eid < 0 || eid >= len(registry) {
+		return hd, "bad-op"
+	}
+	e := &registry[eid]
+	if f[0] == "MM" && (e.Pkg != f[1] || e.T != f[2] || e.Ptr != (f[3] == "1") || e.Tmpl == nil) {
+		return hd, "err:inconsistent-op"
+	}
+	if old != nil {
+		hd = *old
+	}
+	hd.e = e
+	res = try(func() {
+		if f[0] == "UM" {
+			hd.via = "ES"
+			if old == nil {
+				hd.um = mocker.NewUnexportedMethodMocker(f[1], f[2])
+			}
+			if hd.um == nil {
+				panic("probe: not a directly constructed by-name mocker")
+			}
+			hd.h = hd.um.Method(m)
+		} else {
+			hd.via = "SM"
+			if old == nil {
+				hd.mm = mocker.NewMethodMocker("", e.Tmpl(tmpl))
+			}
+			if hd.mm == nil {
+				panic("probe: not a directly constructed method mocker")
+			}
+			hd.h = hd.mm.Method(m)
+		}
+	})
+	return
 }
 
 func stdArgs(np int, std bool) []interface{} {
@@ -218,6 +275,24 @@ func runHist(steps []string) string {
 				handles[f[1]] = hd
 			}
 			res = append(res, r)
+		case (f[0] == "D" || f[0] == "RD") && len(f) > 2:
+			var old *handle
+			if f[0] == "RD" {
+				o, ok := handles[f[1]]
+				if !ok {
+					res = append(res, "err:nohandle")
+					break
+				}
+				old = &o
+			}
+			hd, r := directTok(f[2:], old)
+			if r == "bad-op" || strings.HasPrefix(r, "err:inconsistent") {
+				return r
+			}
+			if r == "ok" {
+				handles[f[1]] = hd
+			}
+			res = append(res, r)
 		case f[0] == "A" && len(f) == 2:
 			if hd, ok := get(); ok {
 				res = append(res, applyCb(hd, k))
@@ -275,6 +350,12 @@ func runHist(steps []string) string {
 		}
 	}
 	hits := snapshot()
+	// clean-up of the test: the builder does not know directly constructed mockers
+	for _, hd := range handles {
+		if hd.um != nil || hd.mm != nil {
+			try(func() { hd.h.(mocker.Mocker).Cancel() })
+		}
+	}
 	rr := try(func() { b.Reset() })
 	clean := "clean"
 	if after := snapshot(); len(after) != 0 || rr != "ok" {
